@@ -23,7 +23,8 @@ func defunFromList(name string, args slip.List, p *slip.Printer) Node {
 	args = args[2:]
 	defun.children = make([]Node, len(args))
 	for i, v := range args {
-		if i == 0 {
+		// A string that is the only form is the value, not documentation.
+		if i == 0 && 1 < len(args) {
 			if doc, ok := v.(slip.String); ok {
 				defun.children[i] = &Doc{text: string(doc), nl: true}
 				continue
